@@ -593,7 +593,12 @@ func (vt *Model) Draw(win vaxis.Window) {
 		}
 	}
 	if vt.mode.dectcem && atomicLoad(&vt.focused) {
-		win.ShowCursor(int(vt.cursor.col), int(vt.cursor.row), vt.cursor.style)
+		col := vt.cursor.col
+		if col > vt.margin.right {
+			// pending wrap: the cursor stays on the last column
+			col = vt.margin.right
+		}
+		win.ShowCursor(int(col), int(vt.cursor.row), vt.cursor.style)
 	}
 	vx := win.Vx
 	vt.vx = vx
